@@ -65,7 +65,7 @@ def gen_classes(rng, n_comp=(1, 6), n_proc=(0, 4), handlers=0.5, ctrl=0.15, diam
 
 
 def gen_scenario(rng, ops_range=(1, 25), w=None, raises=0.0, dup_in_create=0.0, clear_disabled=True,
-                 raise_plain=False, reacts=0.0, forget=0.0, traits=0.0, decoy=0.0,
+                 raise_plain=False, reacts=0.0, forget=0.0, traits=0.0, decoy=0.0, reenter=0.0,
                  **ckw):
     w = {**dict(create=4, add=5, remove=4, delete=3, process=2, clear=0.5, addproc=2, rmproc=1, enable=1.5,
                 dispatch=1.5), **(w or {})}
@@ -140,6 +140,52 @@ def gen_scenario(rng, ops_range=(1, 25), w=None, raises=0.0, dup_in_create=0.0, 
                 ['process'] if objs[o] in ptys else [])
             if pool:
                 lines.append(f'react {o} {rng.choice(pool)} {rng.randint(0, 1)} delete {rng.choice(ENTS)}')
+    if reenter and rng.random() < reenter:
+        # callbacks that call back into the SAME world: add / remove / delete / create / remove_processor
+        # (mode B also add_processor, then only from lifecycle callbacks: a processor added from inside
+        # process() would be inserted into the very list the frame is iterating)
+        plain = EVS + ['on_update']
+        listeners = {ev: [o for o in objs if maps[objs[o]] and ev in maps[objs[o]]] for ev in plain}
+        mode_b = rng.random() < 0.3
+        cobjs = [o for o, t in objs.items() if t in ctys]
+        pobjs = [o for o, t in objs.items() if t in ptys]
+        for _ in range(rng.randint(1, 3)):
+            o = rng.choice(list(objs))
+            m = maps[objs[o]] or {}
+            life = [m[e] for e in ('on_remove', 'on_remove', 'on_add') if e in m]
+            plain_targets = {m[ev] for ev in plain if ev in m}
+            pool = [x for x in life if mode_b is False or x not in plain_targets]
+            if not mode_b:
+                pool += ['process'] if objs[o] in ptys else []
+                pool += [m[ev] for ev in plain if ev in m and listeners[ev] == [o]]
+            pool = [x for x in pool if all(listeners[ev] == [o] for ev in plain if m.get(ev) == x)]
+            if not pool:
+                continue
+            acts = []
+            meth = rng.choice(pool)
+            # half of the nested calls are about the very entity the callback is told about (written 0)
+            ent = lambda: '0' if meth != 'process' and rng.random() < 0.5 else str(rng.choice(ENTS))   # noqa
+            for _ in range(rng.randint(1, 2)):
+                k = rng.choice(['add', 'add', 'remove', 'remove', 'delete', 'delete', 'create', 'rmproc'] +
+                               (['addproc', 'addproc'] if mode_b else []))
+                if meth == 'process' and rng.random() < 0.5 and objs[o] in ptys:
+                    k = 'rmproc-self'
+                if k == 'add' and cobjs:
+                    acts.append(f'add {ent()} {rng.choice(cobjs)}')
+                elif k == 'remove' and ctys:
+                    acts.append(f'remove {ent()} {rng.choice(ctys)}')
+                elif k == 'delete':
+                    acts.append(f'delete {ent()} {rng.randint(0, 1)}')
+                elif k == 'rmproc-self':
+                    acts.append(f'rmproc {objs[o]}')
+                elif k == 'create' and cobjs:
+                    acts.append(f'create auto {rng.choice(cobjs)}')
+                elif k == 'rmproc' and ptys:
+                    acts.append(f'rmproc {rng.choice(ptys)}')
+                elif k == 'addproc' and pobjs:
+                    acts.append(f'addproc {rng.choice(pobjs)} -')
+            if acts:
+                lines.append(f'react {o} {meth} {rng.choice([0, 0, 0, 1])} do ' + ' ; '.join(acts))
     lines.append('ents ' + ','.join(map(str, ENTS)))
     attached = {}       # obj -> entity (generator-side approximation, to respect OneOwner)
     live = set()
@@ -198,3 +244,52 @@ def gen_scenario(rng, ops_range=(1, 25), w=None, raises=0.0, dup_in_create=0.0, 
         ops.append('snap')
     ops += ['enable 1', 'snap']
     return lines + ['op ' + o for o in ops]
+
+
+def gen_reentrant_targeted(rng):
+    """Small structured histories around callbacks that call back into the world about the very things
+    the operation in progress is working on: the entity being stripped or swept, the component being
+    replaced, a sibling of it, the same component type on another entity, the processors of the frame."""
+    A, B, C, P, Q = 0, 1, 2, 3, 4
+    lines = [
+        f'class {A} kind=c bases=- names=on_remove,on_add kw=- prio=0',
+        f'class {B} kind=c bases=- names={rng.choice(["on_remove", "-", "on_remove,on_add"])} kw=- prio=0',
+        f'class {C} kind=c bases={rng.choice(["-", str(A)])} names=- kw=- prio=0',
+        f'class {P} kind=p bases=- names={rng.choice(["-", "on_remove"])} kw=- prio={rng.randint(-1, 1)}',
+        f'class {Q} kind={rng.choice(["p", "upd"])} bases=- names={rng.choice(["-", "on_add,on_remove"])} kw=- '
+        f'prio={rng.randint(-1, 2)}',
+    ]
+    objs = {0: A, 1: A, 2: A, 3: B, 4: B, 5: C, 6: P, 7: Q, 8: Q}
+    lines += [f'obj {o} class={t}' for o, t in objs.items()]
+    shape = rng.choice(['replace', 'replace', 'strip', 'strip', 'procs', 'procs'])
+    who, meth = 0, 'on_remove'
+    if shape == 'replace':
+        act = rng.choice(['add 0 3', 'add 0 2', 'add 2 2', 'add 3 2', 'remove 0 1', 'delete 0 1', 'create auto 2',
+                          'add 0 5', 'delete 0 0'])
+        ops = [rng.choice(['create auto 0', 'create auto 0,3', 'create 2 0']), 'snap']
+        if rng.random() < 0.4:
+            ops += ['create auto 5', 'snap']
+        e = 2 if ops[0].startswith('create 2') else 1
+        ops += [f'add {e} 1', 'snap', rng.choice([f'remove {e} 0', f'delete {e} 1', 'process 1', f'add {e} 0']), 'snap']
+    elif shape == 'strip':
+        act = rng.choice(['remove 0 1', 'add 0 4', 'delete 0 1', 'add 0 1', 'remove 0 2', 'add 2 1', 'delete 0 0',
+                          'create auto 1'])
+        ops = [rng.choice(['create auto 0,3,5', 'create auto 3,0', 'create auto 0,3']), 'snap']
+        ops += rng.choice([['delete 1 1'], ['delete 1 0', 'process 1'], ['clear'], ['remove 1 0', 'snap', 'delete 1 1']])
+        ops += ['snap', 'process 2', 'snap']
+    else:
+        if rng.random() < 0.5:
+            act = rng.choice([f'rmproc {P}', f'rmproc {Q}', 'addproc 8 -', f'rmproc {Q} ; addproc 8 -'])
+            ops = ['addproc 6 -', 'addproc 7 -', 'snap', 'create auto 0', 'snap',
+                   rng.choice(['delete 1 0', 'remove 1 0', 'delete 1 1']), 'snap', 'process 1', 'snap', 'process 2',
+                   'snap']
+        else:
+            who, meth = 6, 'process'
+            act = rng.choice([f'rmproc {P}', f'rmproc {Q}', f'rmproc {P} ; rmproc {Q}', 'delete 1 0', 'add 1 1'])
+            ops = ['addproc 6 -', 'addproc 7 -', 'snap', 'create auto 0', 'snap', 'process 1', 'snap', 'process 2',
+                   'snap', 'process 3', 'snap']
+    lines.append(f'react {who} {meth} {rng.choice([0, 0, 1])} do {act}')
+    if rng.random() < 0.3:
+        lines.append(f'react {rng.choice([1, 3])} on_remove 0 do {rng.choice(["add 0 4", "remove 0 0", "delete 2 0"])}')
+    lines.append('ents ' + ','.join(map(str, ENTS)))
+    return lines + ['op ' + o for o in ops + ['enable 1', 'snap']]
